@@ -43,6 +43,11 @@ func c20Service(name string, resp *protogen.Message) (*protogen.Service, *protog
 	return svc, req
 }
 
+func c20AddMethod(svc *protogen.Service, name string, in, out *protogen.Message) {
+	mo := &descriptorpb.MethodOptions{}
+	verif.SetExt(mo, http.E_Config, &http.HttpConfig{Path: "/" + strings.ToLower(name), Method: http.HttpMethod_HTTP_METHOD_POST})
+	verif.NewMethod(svc, name, name, in, out, mo)
+}
 
 func c20Any(lines []string, sub string) bool {
 	for _, l := range lines {
